@@ -2,8 +2,11 @@ pub mod common;
 pub mod c01;
 pub mod c02;
 pub mod c03;
+pub mod c06;
+pub mod c07;
 pub mod c08;
 pub mod c12;
+pub mod c14;
 pub mod flowkit;
 pub mod c10;
 
@@ -17,7 +20,10 @@ pub fn run(prop: &str, ctx: &mut Ctx, replay: Option<&Value>) {
         "C02" => c02::run(ctx, replay),
         "C03" => c03::run(ctx, replay),
         "C08" => c08::run(ctx, replay),
+        "C06" => c06::run(ctx, replay),
+        "C07" => c07::run(ctx, replay),
         "C12" => c12::run(ctx, replay),
+        "C14" => c14::run(ctx, replay),
         other => {
             eprintln!("no harness run for property {}", other);
             std::process::exit(2);
